@@ -1,0 +1,24 @@
+//go:build verif
+
+package microreader
+
+// C18: the block-summary decoders must not panic on arbitrary file contents
+// (truncated or altered .bsu / .mbsu files).  `safe` makes every index,
+// slice and nil dereference an obligation, with no precondition on the bytes.
+// Checked by /verif/bin/govc.  Comment-only file.
+
+//@ func ReadBlockSummaries
+//@   props C18
+//@   safe
+//@   loop 1:
+//@     invariant 0 <= offset && offset <= fileSize && int64(len(rbuf)) == fileSize
+//@   loop 2:
+//@     invariant 0 <= offset && offset <= fileSize && int64(len(rbuf)) == fileSize
+//@ end
+
+//@ func ReadMetricsBlockSummaries
+//@   props C18
+//@   safe
+//@   loop 1:
+//@     invariant 1 <= offset && offset <= fileSize && int64(len(data)) == fileSize
+//@ end
